@@ -426,3 +426,38 @@ Fixpoint backward_refs (ds : list decl) : bool :=
   | DMethod g p dp hd dk body :: t => wf_stmts body && doc_ok p dp hd dk && backward_refs t
   end.
 
+
+(* ---- the source positions whose first code must show up as a tagged line (a statement that starts with an
+   init statement has the bare keyword as its first line: its first code is the init statement's) ---- *)
+Definition hdr_tag (p : pos) (i : ostmt) : list pos := match i with ONone => [p] | OSome _ => [] end.
+Fixpoint tags_stmt (s : stmt) : list pos :=
+  match s with
+  | SSimple _ p ps => p :: tags_parts ps
+  | SDecl _ p _ _ _ ps => p :: tags_parts ps
+  | SBlock _ b => tags_stmts b
+  | SIf _ p i ps b e => hdr_tag p i ++ tags_ostmt i ++ tags_parts ps ++ tags_stmts b ++ tags_els e
+  | SFor _ p i ps po b => hdr_tag p i ++ tags_ostmt i ++ tags_parts ps ++ tags_ostmt po ++ tags_stmts b
+  | SRange _ p ps b => p :: tags_parts ps ++ tags_stmts b
+  | SPhraseIf _ p ps _ cps b => p :: tags_parts ps ++ tags_parts cps ++ tags_stmts b
+  | SSwitch _ p i ps cs => hdr_tag p i ++ tags_ostmt i ++ tags_parts ps ++ tags_clauses cs
+  | SSelect _ cs => tags_clauses cs
+  | SLabeled _ s1 => tags_stmt s1
+  end
+with tags_stmts (b : stmts) : list pos := match b with SNil => [] | SCons s r => tags_stmt s ++ tags_stmts r end
+with tags_ostmt (o : ostmt) : list pos := match o with ONone => [] | OSome s => tags_stmt s end
+with tags_parts (ps : parts) : list pos :=
+  match ps with
+  | PNil => []
+  | PRef _ r => tags_parts r
+  | PLit b r => tags_stmts b ++ tags_parts r
+  | PLam _ i r => tags_parts i ++ tags_parts r
+  end
+with tags_els (e : els) : list pos := match e with ENone => [] | EBlock b => tags_stmts b | EIf s => tags_stmt s end
+with tags_clauses (cs : clauses) : list pos :=
+  match cs with
+  | CNil => []
+  | CCons _ p c ps b _ r => hdr_tag p c ++ tags_parts ps ++ tags_ostmt c ++ tags_stmts b ++ tags_clauses r
+  end.
+
+Definition line_tags (ls : list outline) : list pos :=
+  flat_map (fun l => match l with Code _ (Some t) => [Some t] | _ => [] end) ls.
